@@ -18,6 +18,7 @@ FACTS_FOR = {
     "C12": ["order_RemoveDiffDisk", "order_ReplaceDisk", "createDiskDupGuard", "chainTooLong", "liveChainTooLong", "guard_Replica_RemoveDiffDisk", "guard_Replica_PrepareRemoveDisk"],
     "C13": ["locks_Snapshot", "locks_RemoveReplica", "locks_Revert", "snapshotRefusal", "checkpointCond", "checkpointBody", "removeReplicaTail"],
     "C14": ["actionsGated", "checkAction", "replicaActions", "routedActions", "verifyChainGuard", "verifySlices"],
+    "C15": ["wireWrite", "wireRead", "wireMagicCheck"],
     "C16": ["locks_Resize", "guard_Replica_Resize", "guard_Server_Resize"],
     "C17": ["replicaWriteModeBeforeData", "replicaActions", "routedActions", "actionsGated", "checkAction",
             "guard_Replica_RemoveDiffDisk", "guard_Replica_ReplaceDisk", "guard_Replica_PrepareRemoveDisk",
